@@ -309,6 +309,74 @@ def c01_loop_family(rep, tier, coverage, ctx):
     return {"loop_family": {"programs": len(progs), "accepted": res["accepted"], "rejected": res["rejected"], "not_judged": res["skipped"]},
             "traces_validated_against_impl": coverage["traces_validated_against_impl"] + res["accepted"] + res["rejected"]}
 
+def c01_setop_family(rep, tier, coverage, ctx):
+    """remove / intersect (book page Append; SetOpT in Prql.tla): top prefix x operation x bottom relation x follower.
+    The projections are chosen so that rows repeat (one column of t / u), which is where "removed one-for-one" differs
+    from an anti-join and the minimum of the multiplicities from their product."""
+    a, b, k, c = col("a"), col("b"), col("k"), col("c")
+    tops = [([from_("t"), select(item("a"))], 1), ([from_("t"), select(item("a"), item("b"))], 2), ([from_("t"), select(item("k"), item("a"), item("b"))], 3),
+            ([from_("t"), filter_(bin_(">", k, lit(1))), select(item("a"))], 1), ([from_("t"), select(item(bin_("%", k, lit(2)), "a"))], 1),
+            ([from_("t"), sort(("desc", "k")), select(item("a"))], 1),
+            ([fromlit(["a"], [[1], [1], [1], [2], [None]])], 1), ([from_("t"), derive(item(bin_("+", a, lit(1)), "x")), select(item("x"))], 1)]
+    bots = {1: [[from_("u"), select(item("a"))], [from_("u"), select(item(col("c"), "a"))], [from_("u"), filter_(bin_("<", k, lit(3))), select(item("a"))],
+                [fromlit(["a"], [[1], [1], [None]])], [from_("t"), select(item(col("b"), "a"))], [from_("u"), take(1, 2), select(item("a"))]],
+            2: [[from_("u"), select(item("a"), item("c"))], [from_("t"), select(item("a"), item("b")), take(1, 2)], [fromlit(["a", "b"], [[1, 2], [1, 2], [1, None]])]],
+            3: [[from_("u"), select(item("k"), item("a"), item("c"))], [from_("t"), filter_(bin_(">", a, lit(1)))]]}
+    def posts(n):
+        first = "a" if n < 3 else "k"
+        f = col(first)
+        return [[], [sort(("asc", first)), take(1, 2)], [aggregate(item(agg("count", f), "n"))], [filter_(bin_("!=", f, lit(None)))],
+                [group([first], [aggregate(item(agg("count", f), "n"))])], [derive(item(bin_("*", f, lit(2)), "d"))], [take(1, 1)],
+                [group([first], [take(1, 1)])], [derive(item(agg("count", f), "cnt"))]]
+    progs = []
+    for tp, n in tops:
+        for op in (remove, intersect):
+            for bt in bots[n]:
+                for po in posts(n):
+                    progs.append({"id": f"so{len(progs)}", "decl": True, "steps": tp + [op(bt)] + po})
+    # two operations in a row, an operation inside the bottom relation, widths that differ (no meaning given: not judged)
+    one = [from_("t"), select(item("a"))]; ua = [from_("u"), select(item("a"))]; uc = [from_("u"), select(item(col("c"), "a"))]
+    for o1 in (remove, intersect):
+        for o2 in (remove, intersect, append):
+            progs.append({"id": f"so{len(progs)}", "decl": True, "steps": one + [o1(ua), o2(uc)]})
+            progs.append({"id": f"so{len(progs)}", "decl": True, "steps": one + [o1(ua + [o2(uc)])]})
+            progs.append({"id": f"so{len(progs)}", "decl": True, "steps": one + [append(uc), o1(ua)]})
+        progs.append({"id": f"so{len(progs)}", "decl": True, "steps": [from_("t"), select(item("a"), item("b")), o1(ua)]})
+    if tier == "quick":
+        rnd = random.Random(seed() + 11)
+        progs = progs[:0] + [p for i, p in enumerate(progs) if i % 2 == 0 or rnd.random() < 0.15]
+    def fix(st_):
+        st_.setdefault("at", [])
+        for key in ("with", "pipe"):
+            for x in st_.get(key, []) or []:
+                fix(x)
+    for p in progs:
+        for st_ in p["steps"]:
+            fix(st_)
+    dbset = os.path.join(ROOT, "corpus", "dbs_quick.json" if tier == "quick" else "dbs_thorough.json")
+    # design level: the machine's invariants and step laws (a remove never adds rows, the frame is the top's) on every
+    # pipeline of the bound over an alphabet with both operations; its programs join the family
+    ua1 = [from_("u"), select(item("a"))]
+    alph = [select(item("a")), select(item(col("b"), "a")), remove(ua1), intersect(ua1), remove([from_("t"), select(item(col("b"), "a"))]),
+            intersect([fromlit(["a"], [[1], [1], [None]])]), append(ua1), filter_(bin_(">", a, lit(1))), sort(("desc", "a")), take(1, 2),
+            aggregate(item(agg("count", a), "n")), group(["a"], [take(1, 1)]), derive(item(agg("row_number", a), "rn"))]
+    mprogs, minfo = l1.mc_generate("C01-setopmc", model([from_("t")], alph, 3 if tier == "quick" else 4), dbset, workers=8)
+    mprogs = [p for p in mprogs if any(s_["op"] in ("remove", "intersect") for s_ in p["steps"])]
+    if not mprogs:
+        raise ToolError("set-operation model: no program with remove / intersect was generated")
+    progs += mprogs
+    res = l1check.run(rep, "C01-setop", progs, dbset, CONFIG["C01"]["relevant"])
+    return {"setop_family": {"programs": len(progs), "model_states": minfo["distinct"], "model_programs": len(mprogs), "accepted": res["accepted"], "rejected": res["rejected"], "not_judged": res["skipped"],
+                             "explanation": "remove / intersect (SetOpT of Prql.tla: bag difference one-for-one; intersection as minimum or product of multiplicities; NULL = NULL left open): top prefix x operation x bottom relation x follower, projections under which rows repeat"},
+            "states": coverage.get("states", 0) + minfo["distinct"],
+            "traces_validated_against_impl": coverage["traces_validated_against_impl"] + res["accepted"] + res["rejected"]}
+
+def c01_extra(rep, tier, coverage, ctx):
+    out = c01_loop_family(rep, tier, coverage, ctx)
+    coverage.update(out)
+    out.update(c01_setop_family(rep, tier, coverage, ctx))
+    return out
+
 def c03_let_family(rep, tier, coverage, ctx):
     """C03 across declarations: a relation sorted inside a let (or a sort followed by group {} (take n)) and taken from
     in the consumer, followed by a transform that forces the take into a sub-query: sort x projection x take x follower."""
@@ -416,7 +484,7 @@ def c03_extra(rep, tier, coverage, ctx):
     return out
 
 CONFIG["C03"]["extra"] = c03_extra
-CONFIG["C01"]["extra"] = c01_loop_family
+CONFIG["C01"]["extra"] = c01_extra
 CONFIG["C05"]["extra"] = c05_dialect_frames
 
 def check(pid, tier, extra=None):
